@@ -68,6 +68,8 @@ def Slot.removeActive (s : Slot) (k : Key) : Slot :=
 /-- `normalizeRouteSeen` -/
 def normalize (r : Route) : Route := if r.seen = 0 then { r with seen := r.conn } else r
 
+def Route.withSeen (r : Route) (x : Int) : Route := { r with seen := x }
+
 /-- `upsertActiveLocked` -/
 def Slot.upsert (s : Slot) (r : Route) : Slot :=
   let r := normalize r
@@ -155,14 +157,31 @@ def Slot.abort (s : Slot) (tok : String) : Slot × Option Err :=
   | none => (s, some .notReady)
   | some _ => ({ s with pending := delP tok s.pending }, none)
 
+/-- `UnregisterRoute`, statement 1: `if tombstone, ok := tombstoneSeq[key]; !ok || ownerSeq > tombstone` -/
+def tombAfter (m : List (Key × Nat)) (k : Key) (seq : Nat) : List (Key × Nat) :=
+  match aget k m with
+  | some t => if seq > t then aset k seq m else m
+  | none => aset k seq m
+
+def Slot.unregTomb (s : Slot) (k : Key) (seq : Nat) : Slot := { s with tomb := tombAfter s.tomb k seq }
+
+/-- statement 2: `if ownerSeq > slot.ownerSeq[key]` -/
+def Slot.unregSeq (s : Slot) (k : Key) (seq : Nat) : Slot :=
+  { s with ownerSeq := if seq > getSeq k s.ownerSeq then aset k seq s.ownerSeq else s.ownerSeq }
+
+/-- statement 3: `if existing, ok := slot.active[key]; ok && existing.OwnerSeq <= ownerSeq` -/
+def Slot.unregActive (s : Slot) (k : Key) (seq : Nat) : Slot :=
+  match findA k s.active with
+  | some e => if e.seq ≤ seq then s.removeActive k else s
+  | none => s
+
+/-- statement 4: drop pending candidates of the identity at or below the sequence -/
+def Slot.unregPending (s : Slot) (k : Key) (seq : Nat) : Slot :=
+  { s with pending := s.pending.filter (fun p => !(p.route.key = k ∧ p.route.seq ≤ seq)) }
+
 /-- `UnregisterRoute` after validation -/
 def Slot.unregister (s : Slot) (k : Key) (seq : Nat) : Slot :=
-  let s := if seq > getSeq k s.tomb then { s with tomb := aset k seq s.tomb } else s
-  let s := if seq > getSeq k s.ownerSeq then { s with ownerSeq := aset k seq s.ownerSeq } else s
-  let s := match findA k s.active with
-    | some e => if e.seq ≤ seq then s.removeActive k else s
-    | none => s
-  { s with pending := s.pending.filter (fun p => !(p.route.key = k ∧ p.route.seq ≤ seq)) }
+  (((s.unregTomb k seq).unregSeq k seq).unregActive k seq).unregPending k seq
 
 /-- `touchLocked` -/
 def Slot.touch (s : Slot) (route : Route) : Slot :=
@@ -175,7 +194,7 @@ def Slot.touch (s : Slot) (route : Route) : Slot :=
       let route := normalize route
       match findA k s.active with
       | some e =>
-        let route := if route.seen < e.seen then { route with seen := e.seen } else route
+        let route := if route.seen < e.seen then route.withSeen e.seen else route
         s.upsert route
       | none => if (s.conflictsOf route).isEmpty then s.upsert route else s
 
